@@ -106,9 +106,24 @@ def check_callers(ctx):
                        % (bind_i, strip_i, sort_i, call_i), 'not-name-sorted')
 
 
+def names_in_consumer(fi):
+    """(record loop variable, sorted-table variable, parameter loop variable) of a post-processing function"""
+    rec = tab = None
+    for n in walk_local(fi.node):
+        if isinstance(n, ast.For) and isinstance(n.target, ast.Name) and isinstance(n.iter, ast.Name):
+            for t, v, st in stores(n):
+                if isinstance(t, ast.Name) and isinstance(v, ast.Call) and isinstance(v.func, ast.Attribute) and v.func.attr == 'filter_table' \
+                        and isinstance(v.func.value, ast.Name) and v.func.value.id == n.target.id:
+                    rec, tab = n.target.id, t.id
+    return rec, tab
+
+
 def check_ranges(ctx):
     repo = ctx.repo
     fi = ctx.fn(repo.func('write_parameter_ranges', 'write_parameter_ranges'))
+    rec, tab = names_in_consumer(fi)
+    if rec is None:
+        raise AnalysisError('write_parameter_ranges: record loop / filter_table call not found')
     found = {}
     for c in calls(fi.node):
         if isinstance(c.func, ast.Attribute) and c.func.attr == 'write' and c.args and isinstance(c.args[0], ast.BinOp) and isinstance(c.args[0].op, ast.Mod) and isinstance(c.args[0].right, ast.Tuple):
@@ -116,9 +131,10 @@ def check_ranges(ctx):
             if len(tup) == 3 and all(not isinstance(x, ast.Name) for x in tup):
                 a, b, d = tup
                 found[up(b)] = (a, b, d, c)
-    want = ['info.chi2', 'info.av', 'info.sc', 'tsorted[par]']
+    cols = [k[:-3] for k in found if k.startswith(tab + '[') and k.endswith('[0]')]
+    want = ['%s.chi2' % rec, '%s.av' % rec, '%s.sc' % rec] + (cols[:1] or ['%s[par]' % tab])
     for x in want:
-        inst = 'range of %s' % x
+        inst = 'range of %s' % x.replace(rec + '.', 'info.').replace(tab, 'tsorted')
         key = x + '[0]'
         if key not in found:
             ctx.violation('ALG-20', inst, where(fi), 'no (min, best, max) triple whose best value is %s' % key, 'missing-triple')
@@ -126,9 +142,7 @@ def check_ranges(ctx):
         a, b, d, c = found[key]
         ok = up(a) in ('np.nanmin(%s)' % x,) and up(d) in ('np.nanmax(%s)' % x,)
         ctx.expect(ok, 'ALG-20', inst, where(fi, c), '(nanmin(x), x[0], nanmax(x))', 'writes (%s, %s, %s)' % (up(a), up(b), up(d)), 'range-triple')
-    src = ctx.repo.module('write_parameter_ranges').text
-    hdr = [c for c in calls(fi.node) if isinstance(c.func, ast.Attribute) and c.func.attr == 'write' and 'n_data' in up(c) and '%' in up(c)]
-    ok = any('info.source.n_data' in up(c) for c in calls(fi.node)) and any(up(c).endswith('% info.n_fits)') for c in calls(fi.node))
+    ok = any(('%s.source.n_data' % rec) in up(c) for c in calls(fi.node)) and any(up(c).endswith('%% %s.n_fits)' % rec) for c in calls(fi.node))
     ctx.expect(ok, 'ALG-20', 'n_data and n_fits columns', where(fi), 'info.source.n_data and info.n_fits', 'n_data / n_fits are not taken from info.source.n_data / info.n_fits', 'counts')
 
 
@@ -136,30 +150,40 @@ def check_row_index(ctx):
     repo = ctx.repo
     for module, func, per_fit in (('write_parameters', 'write_parameters', ('model_name', 'chi2', 'av', 'sc')), ('extract_parameters', 'extract_parameters', ('chi2', 'av', 'sc'))):
         fi = ctx.fn(repo.func(module, func))
-        loops = [n for n in walk_local(fi.node) if isinstance(n, ast.For) and isinstance(n.target, ast.Name) and isinstance(n.iter, ast.Call) and chain(n.iter.func) == 'range'
-                 and ('info.chi2' in up(n.iter) or 'info.n_fits' in up(n.iter))]
+        rec, tab = names_in_consumer(fi)
         inst = '%s: per-fit arrays indexed by the fit loop variable' % func
+        if rec is None:
+            raise AnalysisError('%s: record loop / filter_table call not found' % func)
+        loops = [n for n in walk_local(fi.node) if isinstance(n, ast.For) and isinstance(n.target, ast.Name) and isinstance(n.iter, ast.Call) and chain(n.iter.func) == 'range'
+                 and (('%s.chi2' % rec) in up(n.iter) or ('%s.n_fits' % rec) in up(n.iter))]
         if len(loops) != 1:
             ctx.undecided('PERM-8', inst, where(fi), 'fit loop not found (%d)' % len(loops))
             continue
         lp = loops[0]
         iv = lp.target.id
-        rng_ok = up(lp.iter) in ('range(len(info.chi2))', 'range(info.n_fits)')
+        rng_ok = up(lp.iter) in ('range(len(%s.chi2))' % rec, 'range(%s.n_fits)' % rec)
         bad, n = [], 0
-        for s in walk_local(lp):
-            if isinstance(s, ast.Subscript) and isinstance(s.ctx, ast.Load):
-                base = up(s.value)
-                if base == 'tsorted' and (isinstance(s.slice, ast.Constant) or up(s.slice) == 'par'):
-                    continue        # column selection, not a row index
-                if base in ['info.%s' % a for a in per_fit] or base in ('tsorted[par]', 'tsorted'):
+        for s_ in walk_local(lp):
+            if isinstance(s_, ast.Subscript) and isinstance(s_.ctx, ast.Load):
+                base = up(s_.value)
+                is_tab_col = isinstance(s_.value, ast.Subscript) and up(s_.value.value) == tab
+                if base == tab and (isinstance(s_.slice, ast.Constant) or (isinstance(s_.slice, ast.Name) and s_.slice.id != iv and not any(s_.slice.id == l.target.id for l in [lp]))):
+                    if not isinstance(s_.slice, ast.Constant) and up(s_.slice) == iv:
+                        pass
+                    else:
+                        # column selection by name / loop over parameter names, not a row index ... unless it is a plain integer-valued name
+                        par_loops = [l for l in walk_local(lp) if isinstance(l, ast.For) and isinstance(l.target, ast.Name) and l.target.id == up(s_.slice)]
+                        if isinstance(s_.slice, ast.Constant) or par_loops:
+                            continue
+                if base in ['%s.%s' % (rec, a) for a in per_fit] or is_tab_col or base == tab:
                     n += 1
-                    if up(s.slice) != iv:
-                        bad.append(up(s))
+                    if up(s_.slice) != iv:
+                        bad.append(up(s_))
         ctx.expect(rng_ok and not bad and n >= len(per_fit), 'PERM-8', inst, where(fi, lp), '%d subscripts, all [%s], loop over all selected fits' % (n, iv),
                    'rows mixed: %s (loop %s)' % (bad, up(lp.iter)), 'row-index')
-        ok = any('info.source.n_data' in up(c) for c in calls(fi.node)) if func == 'write_parameters' else True
         if func == 'write_parameters':
-            ctx.expect(ok and any(up(c).endswith('% info.n_fits)') for c in calls(fi.node)), 'PERM-8', '%s: n_data and n_fits' % func, where(fi), 'info.source.n_data and info.n_fits',
+            ok = any(('%s.source.n_data' % rec) in up(c) for c in calls(fi.node))
+            ctx.expect(ok and any(up(c).endswith('%% %s.n_fits)' % rec) for c in calls(fi.node)), 'PERM-8', '%s: n_data and n_fits' % func, where(fi), 'info.source.n_data and info.n_fits',
                        'n_data / n_fits not taken from the record', 'counts')
 
 
